@@ -631,7 +631,10 @@ def check_lsq(case, rec):
         # active bounds: the trust-region iteration stops on the relative change of the cost (its own rule), which does
         # not bound the distance to the optimum tightly; it is held to 1 % of the optimal cost and 2e-2 on the damage
         rec.note_max("lsq_active_rel_cost_excess", max(cost - cost_ref, 0.0) / (cost_ref + 1e-300))
-        rec.require(cost <= cost_ref * 1.01 + 1e-8 * cscale, "lsq_cost_optimal", f"{types}: cost {cost!r} of the returned damage exceeds the cost "
+        # (when the optimum is a consistent solution sitting ON a bound - cost 0, e.g. d = 1 everywhere around a prescribed crack
+        # without driving force - the interior iterates of the trust-region method stop 1e-7 of the cost scale above it,
+        # measured in the thorough tier at seed 5: the absolute floor is 1e-6 of the cost scale)
+        rec.require(cost <= cost_ref * 1.01 + 1e-6 * cscale, "lsq_cost_optimal", f"{types}: cost {cost!r} of the returned damage exceeds the cost "
                     f"{cost_ref!r} of the bounded least-squares solution by more than 1 %", active=True, **sig)
         if well:
             rec.note_max("lsq_active_solution_err", float(np.abs(d - d_ref).max()))
